@@ -28,10 +28,29 @@ class Model:
         self.spec = None
 
 
-def build(spec, task_overrides=None):
+def build(spec, task_overrides=None, share_ids=False):
+    """share_ids=True: ID strings that are referred to from elsewhere (main_workplace_id, fixed-ID
+    lists) are the very same str objects as the IDs of the objects they name (default: equal but
+    distinct objects)."""
+    global fresh
     ns = load()
     m = Model()
     m.spec = spec
+    _fresh = fresh
+    if share_ids:
+        pool = {}
+
+        def fresh(s):  # noqa: F811
+            if s is None:
+                return None
+            return pool.setdefault(s, s)
+    try:
+        return _build(spec, task_overrides, ns, m)
+    finally:
+        fresh = _fresh
+
+
+def _build(spec, task_overrides, ns, m):
     RP, WP = ns.ResourcePriorityRuleMode, ns.WorkplacePriorityRuleMode
     for i, t in enumerate(spec["tasks"]):
         kw = dict(
@@ -75,19 +94,26 @@ def build(spec, task_overrides=None):
         for i in w["targets"]:
             m.wps[k].append_targeted_task(m.tasks[i])
     for k, tm in enumerate(spec["teams"]):
-        team = ns.BaseTeam(tm["name"], ID=fresh(tm["id"]))
+        if tm.get("ctor_targets"):
+            # targets given to the constructor: team.targeted_task_list is set, the tasks'
+            # allocated_team_list is not (the library decides by team.targeted_task_list)
+            team = ns.BaseTeam(tm["name"], ID=fresh(tm["id"]), targeted_task_list=[m.tasks[i] for i in tm["targets"]])
+        else:
+            team = ns.BaseTeam(tm["name"], ID=fresh(tm["id"]))
         for w in tm["workers"]:
             wo = ns.BaseWorker(w["name"], ID=fresh(w["id"]), cost_per_time=w["cost"], solo_working=w["solo"],
                                workamount_skill_mean_map=dict(w["skills"]), facility_skill_map=dict(w["fskills"]),
                                absence_time_list=list(w["absence"]), main_workplace_id=fresh(w["main_wp"]))
             team.add_worker(wo)
             m.workers[w["id"]] = wo
-        for i in tm["targets"]:
-            team.append_targeted_task(m.tasks[i])
+        if not tm.get("ctor_targets"):
+            for i in tm["targets"]:
+                team.append_targeted_task(m.tasks[i])
         m.teams.append(team)
     m.project = ns.BaseProject(
         init_datetime=datetime.datetime(2020, 1, 1, 8, 0, 0), unit_timedelta=datetime.timedelta(days=1),
-        product=ns.BaseProduct(m.comps), workflow=ns.BaseWorkflow(m.tasks),
+        product=ns.BaseProduct(m.comps),
+        workflow=ns.BaseWorkflow([m.tasks[k] for k in spec["task_order"]] if spec.get("task_order") else list(m.tasks)),
         organization=ns.BaseOrganization(m.teams, m.wps))
     return m
 
